@@ -728,7 +728,27 @@ def gen_text_case(rng):
         # with a positive size); never on the root, so that some text remains
         fs = rng.choice([None, None, None, None, '0', '-3', '14']) if depth > 0 else None
         return dict(x=poslist(n), y=poslist(n) if rng.below(3) == 0 else None, kids=kids, fs=fs)
-    return elem(0)
+    root = elem(0)
+    # textPath children (only valid directly under `text`): before / after / between plain text and tspans, with
+    # several spans inside; the first character inside and the first one after a textPath start a new chunk
+    for i, k in enumerate(root['kids']):
+        if not isinstance(k, str) and rng.below(3) == 0:
+            k['tp'] = True
+            k['x'] = k['y'] = None          # positions on a textPath element are ignored
+    if rng.below(4) == 0:
+        tp = elem(1)
+        tp['tp'] = True
+        tp['x'] = tp['y'] = None
+        root['kids'].insert(rng.below(len(root['kids']) + 1), tp)
+        # adjacent text nodes would merge: keep structure as generated (strings next to elements only)
+        kids = []
+        for k in root['kids']:
+            if kids and isinstance(k, str) and isinstance(kids[-1], str):
+                kids[-1] += k
+            else:
+                kids.append(k)
+        root['kids'] = kids
+    return root
 
 
 def count_chars(kids):
@@ -747,10 +767,13 @@ def text_doc(c):
             a += ' y="%s"' % e['y']
         if e.get('fs') is not None:
             a += ' font-size="%s"' % e['fs']
-        inner = ''.join(k if isinstance(k, str) else ser(k, 'tspan') for k in e['kids'])
+        inner = ''.join(k if isinstance(k, str) else ser(k, 'textPath' if k.get('tp') else 'tspan') for k in e['kids'])
+        if tag == 'textPath':
+            a += ' xlink:href="#tpath"'
         return '<%s%s>%s</%s>' % (tag, a, inner, tag)
     t = ser(c, 'text')
-    return '<svg %s width="200" height="100" viewBox="0 0 200 100" font-family="Noto Sans" font-size="10">%s</svg>' % (NS, t)
+    return ('<svg %s width="200" height="100" viewBox="0 0 200 100" font-family="Noto Sans" font-size="10"><defs>'
+            '<path id="tpath" d="M 5 80 L 195 80"/></defs>%s</svg>' % (NS, t))
 
 
 def text_fold_input(c):
@@ -774,6 +797,7 @@ def text_fold_input(c):
     visit(c)
     out = []
     idx = [0]
+    split = [False]        # IterState::split_chunk: set when a textPath is entered and when it is left
 
     def walk(e, fs):
         if e.get('fs') is not None:
@@ -782,10 +806,15 @@ def text_fold_input(c):
             if isinstance(kid, str):
                 for j, ch in enumerate(kid):
                     if fs > 0:          # text of an element with a non-positive font size is skipped (positions still advance)
-                        out.append((len(ch.encode('utf-8')), hasx[idx[0]], j == 0))
+                        out.append((len(ch.encode('utf-8')), hasx[idx[0]] or split[0], j == 0))
+                        split[0] = False
                     idx[0] += 1
             else:
+                if kid.get('tp'):
+                    split[0] = True
                 walk(kid, fs)
+                if kid.get('tp'):
+                    split[0] = True
     walk(c, 10.0)
     return out
 
@@ -854,12 +883,33 @@ def gen_numeric_doc(rng):
     """hand-made templates exercising every clause with extreme magnitudes"""
     E = lambda: rng.choice(EXTREMES)
     T = lambda: rng.choice(TS_EXTREMES)
-    k = rng.below(17)
+    k = rng.below(20)
     FS = lambda: rng.choice(['-4', '0', '1e30', '3e38', '12', '-1e30', '1e-30'])
     DU = lambda: rng.choice(EXTREMES + ['2em', '1ex', '3e38in', '-1em', '2e38em', '3e38mm', '1em'])
     if k == 0:
         return ('<svg %s width="100" height="100"><g transform="%s"><g transform="%s"><rect width="%s" height="10" stroke="red" '
                 'stroke-width="%s" stroke-miterlimit="%s" stroke-dasharray="%s %s"/></g></g></svg>' % (NS, T(), T(), E(), E(), E(), E(), E()))
+    if k == 17:
+        # mask / clip-path link chains of depth 1..5 with objectBoundingBox paint in the content of EVERY level (single reference each)
+        depth = 1 + rng.below(5)
+        defs = ''
+        for i in range(1, depth + 1):
+            link = ' mask="url(#m%d)"' % (i + 1) if i < depth else ''
+            units = rng.choice(['', ' maskUnits="userSpaceOnUse" x="0" y="0" width="200" height="100"'])
+            defs += ('<linearGradient id="g%d"><stop offset="0" stop-color="white"/><stop offset="1" stop-color="#404040"/></linearGradient>'
+                     '<mask id="m%d"%s%s><rect x="%d" y="2" width="%d" height="90" fill="url(#g%d)"/></mask>' % (i, i, units, link, i, 180 - 5 * i, i))
+            clink = ' clip-path="url(#c%d)"' % (i + 1) if i < depth else ''
+            defs += '<clipPath id="c%d"%s%s><rect x="%d" y="1" width="190" height="95"/></clipPath>' % (
+                i, rng.choice(['', ' clipPathUnits="userSpaceOnUse"']), clink, i)
+        return ('<svg %s width="200" height="100"><defs>%s</defs><rect x="5" y="5" width="150" height="80" fill="#205080" mask="url(#m1)" '
+                'clip-path="url(#c1)"/></svg>' % (NS, defs))
+    if k in (18, 19):
+        # text before / inside / after a textPath, several spans inside, multi-byte characters, no positions on the later spans
+        pre = rng.choice(['', 'ab', '\u00c4\u00d6\u00dc', 'x\u20acy'])
+        post = rng.choice(['', 'z', '\u00e9\u00e9'])
+        return ('<svg %s width="200" height="100" font-family="Noto Sans" font-size="12"><defs><path id="tp" d="M 5 60 L 195 60"/></defs>'
+                '<text x="10" y="30">%s<textPath xlink:href="#tp">\u00c4<tspan fill="red">\u00d6\u00dc</tspan>q<tspan font-size="%s">w\u20ac</tspan></textPath>%s'
+                '<tspan dy="5">t</tspan></text></svg>' % (NS, pre, rng.choice(['12', '0', '9']), post))
     if k in (14, 15, 16):
         # objectBoundingBox paint nested in the content of a definition: single-reference and objectBoundingBox
         # definitions must come out resolved; only a SHARED USER-SPACE definition is the known class [F25]
